@@ -457,6 +457,12 @@ static bool gen_c16(uint64_t seed, const std::string &tier, uint64_t i, Plan &p)
   if (pre == 0) p.ops.push(Json::obj().set("op", "settle").set("max_s", 1));
   else if (pre == 1) p.ops.push(Json::obj().set("op", "yield").set("n", (long long)r.range(1, 400)));
   int rounds = (int)r.range(1, 3); int rid = 0;
+  if (i % 6 == 5) {
+    // a slow client: one injector sits in the middle of its message for a long time while others come and go
+    Json slow = Json::obj(); slow.set("op", "inject").set("id", "m" + std::to_string(++rid)).set("sender", "s@x.example").set("body_len", (long long)r.pick(std::vector<int64_t>{300, 3000, 20000})).set("body_seed", rid).set("feed_delay", (long long)r.pick(std::vector<int64_t>{20, 100, 400, 2000}));
+    Json rc = Json::arr(); rc.push("l" + std::to_string(rid) + "@l.example"); slow.set("rcpts", rc); p.ops.push(slow);
+    p.ops.push(Json::obj().set("op", "yield").set("n", (long long)r.range(1, 200)));
+  }
   for (int q = 0; q < rounds; q++) {
     int ninj = (int)r.range(1, 2);
     for (int x = 0; x < ninj; x++) {
@@ -553,7 +559,10 @@ static bool gen_c14(uint64_t seed, const std::string &tier, uint64_t i, Plan &p)
   if (r.chance(0.2)) { p.ops.push(Json::obj().set("op", "sleep").set("s", (long long)r.range(1, 500))); p.ops.push(Json::obj().set("op", "signal").set("to", "qmail-send").set("sig", "ALRM")); }
   // the bounce injection itself may fail: duplicates allowed, losses not
   if (i % 5 == 4) { Fault f; f.actor = "qmail-queue"; f.call = r.pick(std::vector<CallId>{C_WRITE, C_FSYNC, C_LINK, C_OPEN, C_READ}); f.nth = (int)r.range(3, 25); f.kind = "error"; f.err = EIO; p.faults.push_back(f); }
+  // ... or the daemon cannot read its own record or the original message while it composes the bounce: the bounce must wait, not go out cut short
+  if (i % 5 == 3) { Fault f; f.actor = "qmail-send"; f.call = r.pick(std::vector<CallId>{C_READ, C_READ, C_OPEN}); f.path = r.pick(std::vector<std::string>{"/bounce/", "/mess/"}); f.nth = (int)r.range(1, 4); f.kind = "error"; f.err = r.pick(std::vector<int>{EIO, ENOMEM}); p.faults.push_back(f); }
   p.ops.push(Json::obj().set("op", "settle").set("max_s", (long long)(lifetime + 900000)));
+  if (i % 5 == 3) { p.ops.push(Json::obj().set("op", "boot")); p.ops.push(Json::obj().set("op", "settle").set("max_s", (long long)(lifetime + 900000))); }
   p.knobs.set("expect_drain", true).set("max_sim_s", (long long)((lifetime + 900000) * 3));
   p.label = "msgs=" + std::to_string(nmsg) + (vd ? " vdoms" : "") + " lifetime=" + std::to_string(lifetime);
   return true;
